@@ -73,11 +73,88 @@ def cancelled_callers(rng, n, fail_p=0.0):
     return out
 
 
+def suppressed_failures_in_flows(rng, n):
+    """an activity of collect()/first() fails with an error type that scopes treat specially (TaskCancelled from awaiting
+    a cancelled task): it is still a failure of that activity - the others are aborted at that time and the call raises
+    then, not when the slowest one ends"""
+    out = []
+    for _ in range(n):
+        d = rng.choice([1, 2, 3])
+        slow = d + rng.choice([3, 6])
+        acts = [[201, [['await_task', 1], ['log', 10]]], [202, [['await', ['delay', slow]], ['log', 11]]]]
+        if rng.random() < 0.4:
+            acts.append([203, [['await', ['delay', rng.choice([0, d])]], ['log', 12]]])
+        rng.shuffle(acts)
+        call = ['collect', 501, acts] if rng.random() < 0.6 else ['first', 501, None, 0, acts, [['log', 30]]]
+        body = [['do', 1, 1, ['now'], False, [['await', ['delay', 50]], ['log', 1]]],
+                ['do', 1, 2, ['now'], False, [['await', ['delay', d]], ['cancel', 1, 9]]],
+                ['try', [call], [[['exception'], [['log', 40]]], [['concurrent'], [['log', 41]]]], []], ['log', 42]]
+        out.append(('suppressed-failures-in-flows', dict(start=0, till=None, roots=[[['scope', 1, body], ['log', 43]]], nflags=1,
+                                                        tracked=[0], nlocks=1, nqueues=1, nchans=1, res=[])))
+    return out
+
+
+def aborted_lock_holders(ctx, n):
+    """directed family: an activity of collect()/first() holds a lock (or waits for one, or sits in a queue get) when it is
+    aborted because another activity failed / the count was reached.  Aborting must be silent: the call raises exactly
+    the failure of the failing activity (one child) or returns its results; the aborted activity logs nothing more."""
+    from harness import dsl
+    rng = ctx.rng
+    for _ in range(n):
+        d = rng.choice([1, 2, 3])
+        held = rng.choice([['with_lock', 0, [['await', ['delay', 9]], ['log', 11]]],
+                           ['with_lock', 0, [['with_lock', 0, [['await', ['delay', 9]], ['log', 11]]]]],
+                           ['get', 0]])
+        holder = [202, [held, ['log', 12]]]
+        if rng.random() < 0.5:
+            other = [201, [['await', ['delay', d]], ['raise', rng.choice([0, 1, 2])]]]
+            call = ['collect', 501, [other, holder] if rng.random() < 0.5 else [holder, other]]
+            fails = True
+        else:
+            other = [201, [['await', ['delay', d]], ['log', 10]]]
+            call = ['first', 501, 1, 0, [other, holder] if rng.random() < 0.5 else [holder, other], [['log', 30]]]
+            fails = False
+        body = [['try', [call], [[['concurrent'], [['log', 41]]], [['exception'], [['log', 40]]]], []], ['log', 42],
+                ['await', ['delay', 12]], ['lock_avail', 0], ['log', 43]]
+        sc = dict(start=0, till=None, roots=[body], nflags=1, tracked=[0], nlocks=1, nqueues=1, nchans=1, res=[])
+        tr, info = dsl.run_scenario(sc)
+        ctx.count(sc, nontrivial=True)
+        ctx.bump('family:aborted-lock-holders')
+        logs = [(e[0], e[2]) for e in tr if len(e) == 3 and e[1] == 1]
+        excs = [e for e in tr if len(e) > 3 and e[1] == 3]
+        want = ([(d, 41)] if fails else [(d, 10), (d, 30)]) + [(d, 42), (d + 12, 43)]
+        bad = logs != want or info['final'][0] != 90
+        if fails and (len(excs) != 1 or excs[0][2:4] != [15, 1]):
+            bad = True
+        if bad:
+            ctx.fail(sc, 'an activity holding a lock / waiting in a get was aborted by collect()/first() at %r: logged %r, handled '
+                         'exceptions %r, run ended %r; expected %r%s' % (d, logs, excs, info['final'], want,
+                                                                        ' and a Concurrent with exactly one child' if fails else ''),
+                     family='aborted-lock-holders')
+
+
+def check_suppressed_failures(ctx, tagged):
+    """expectation for the family above, from the text: the call ends at the time of the failure (the time of the cancel),
+    the slow activity is aborted then and never logs"""
+    from harness import dsl
+    for tag, sc in tagged:
+        tr, info = dsl.run_scenario(sc)
+        logs = [(e[0], e[2]) for e in tr if len(e) == 3 and e[1] == 1]
+        d = sc['roots'][0][0][2][1][5][0][1][1]        # the delay of the canceller
+        if any(n == 11 for _, n in logs) or (d, 42) not in logs or info['final'][0] != 90:
+            ctx.fail(sc, 'an activity of collect()/first() failed with TaskCancelled at %r (it awaited a task cancelled then): '
+                         'logged %r, run ended %r; expected the call to end at %r and the slow activity (log 11) to be aborted'
+                     % (d, logs, info['final'], d), family='suppressed-failures-in-flows')
+
+
 def run(ctx):
     # C03's monitor is used here only to recognise known finding D11 (CancelScope of first()'s scope escaping);
     # other C03 failures belong to C03's own check
     scs, impl = machine_prop.run(ctx, FAMILIES, ['C16', 'C04'], extra_scenarios=cancelled_callers(ctx.rng, ctx.n(80, 1500)) +
-                                 cancelled_callers(ctx.rng, ctx.n(80, 1500), fail_p=0.5))
+                                 cancelled_callers(ctx.rng, ctx.n(80, 1500), fail_p=0.5) +
+                                 suppressed_failures_in_flows(ctx.rng, ctx.n(40, 600)))
+    check_suppressed_failures(ctx, suppressed_failures_in_flows(ctx.rng, ctx.n(40, 600)))
+    aborted_lock_holders(ctx, ctx.n(40, 600))
     from harness import monitors
     for sc, (tr, info) in zip(scs, impl):
         for expl, finding in monitors.mon_C03(sc, tr, info['probes'], info):
